@@ -10,7 +10,8 @@ MCNameIds == {"n_true", "n_null", "n_int", "n_float", "n_colonsp", "n_hash", "n_
 MCPairQuick == {"all", "mockname", "exclude", "unroll-variadic"}
 MCLevelKeysQuick == {"all", "dir", "mockname", "exclude", "_anchors", "unroll-variadic", "boilerplate-file"}
 MCPairLevels == {"pkgA", "e2"}
-MCFamQuick == {"single", "style", "null", "pair", "levels", "shape", "layout", "names", "bad"}
+MCAliasKeysQuick == {"all", "mockname", "exclude", "boilerplate-file", "unroll-variadic"}
+MCFamQuick == {"single", "style", "alias", "null", "pair", "levels", "shape", "layout", "names", "bad"}
 MCStyleLevels == {"top", "ifaceI", "e2"}
 MCFamSim == {"random"}
 =============================================================================
